@@ -25,7 +25,15 @@ def sh(cmd, **kw):
 
 def demo(path, src, timeout=600):
     e = dict(ENV, SRC=src, PYTHONPATH=src)
-    if path.endswith(".py") and "def test_" in open(path).read() and "__main__" not in open(path).read():
+    import ast as _ast
+    src_txt = open(path).read()
+    try:
+        tree = _ast.parse(src_txt)
+        top_tests = any(isinstance(n, _ast.FunctionDef) and n.name.startswith("test_") for n in tree.body)
+    except SyntaxError:
+        top_tests = False
+    is_script = "__main__" in src_txt or "sys.exit" in src_txt or "SystemExit" in src_txt
+    if top_tests and not is_script:
         cmd = ["/venv/bin/python", "-m", "pytest", "-p", "no:cacheprovider", "-q", path]
     else:
         cmd = ["/venv/bin/python", path]
